@@ -1,5 +1,6 @@
 import ClusterVerif.Spec.C14
 import Driver.Parse
+import Driver.C14Crash
 namespace CV.C14
 open CV.Parse
 
@@ -120,7 +121,8 @@ def answerPins (ws : List String) : String :=
         (if i.gen.any (fun p => !p.origins.isEmpty) then "-origins" else "") ++
         (if !harmless i.damage then "-damaged" else if i.damage != 0 then "-reshaped" else "") ++
         (if i.prior.isEmpty then "" else "-prior") ++ (if i.gen.isEmpty then "-empty" else "") ++
-        (if o.start.isSome then "-start" else "")
+        (if o.start.isSome then "-start" else "") ++
+        (if ((dm.toNat?).getD 0) / 100 % 10 == 2 then "-badger" else if o.expc.isSome then "-leveldb" else "")
       let cs := pinsClauses i o
       if !allHold cs then "propfail " ++ failedNames cs ++ " arm=" ++ arm else
       let src := fromList i.gen
@@ -360,6 +362,8 @@ def answer (ws : List String) : String :=
   | "rot" :: rest => answerRot rest
   | "ps" :: rest => answerPs rest
   | "psfile" :: rest => answerPsFile rest
+  | "crash" :: rest => answerCrash rest
+  | "pscrash" :: rest => answerPsCrash rest
   | _ => "bad-case unknown-suite"
 
 end CV.C14
